@@ -415,8 +415,11 @@ class Table(Vector):
 					)
 				
 				# Replace the column at validated index
+				# (a Vector is copied: the table owns its columns, the caller keeps theirs)
 				if not isinstance(value, Vector):
 					value = Vector(value)
+				else:
+					value = value.copy()
 				
 				if self._underlying and len(value) != self._length:
 					raise ValueError(
@@ -434,8 +437,11 @@ class Table(Vector):
 			col_idx = self._column_map.get(attr) or self._column_map.get(attr.lower())
 			if col_idx is not None:
 				# Replace the column in _underlying
+				# (a Vector is copied: the table owns its columns, the caller keeps theirs)
 				if not isinstance(value, Vector):
 					value = Vector(value)
+				else:
+					value = value.copy()
 				
 				# Validate length
 				if self._underlying and len(value) != self._length:
